@@ -980,6 +980,70 @@ func runSkip(sc *streamScenario, rec *recorder) {
 		return []*astits.DemuxerData{{PID: 0x1eee}}, false, nil
 	}
 	data("parserObsDs", full2, astits.DemuxerOptPacketsParser(withData))
+	{
+		// packets of a foreign PID whose adaptation_field_length runs past the packet (184..255, flags 0: the library parses them as empty
+		// adaptation-only / payload-less packets) selected by the predicate: skipping them equals deleting them
+		rgj := newRng(sc.Seed ^ 0x1a1a)
+		var withJunk []byte
+		at := rgj.intn(len(bs.pkts) + 1)
+		for i := 0; i <= len(bs.pkts); i++ {
+			if i == at {
+				for j := 0; j < 2; j++ {
+					b := make([]byte, 188)
+					b[0], b[1], b[2], b[3], b[4], b[5] = 0x47, 0x1a, 0xbe, byte(rgj.pick(0x20, 0x30))|byte(j), byte(rgj.pick(184, 200, 255)), byte(rgj.pick(0x00, 0x40))
+					for q := 6; q < 188; q++ {
+						b[q] = 0xff
+					}
+					withJunk = append(withJunk, b...)
+				}
+			}
+			if i < len(bs.pkts) {
+				withJunk = append(withJunk, full[i*188:(i+1)*188]...)
+			}
+		}
+		ncb, nsel := 0, 0
+		skipper := func(p *astits.Packet) bool {
+			ncb++
+			if p.Header.PID == 0x1abe {
+				nsel++
+				return true
+			}
+			return false
+		}
+		var got, want []string
+		errs := 0
+		for ps, st := range [][]byte{withJunk, full} {
+			var opts []func(*astits.Demuxer)
+			if ps == 0 {
+				opts = append(opts, astits.DemuxerOptPacketSkipper(skipper))
+			}
+			dmx := newDemuxer(bytes.NewReader(st), sc.Run, opts...)
+			for k := 0; k < bound+4; k++ {
+				p, err := dmx.NextPacket()
+				if err == astits.ErrNoMorePackets {
+					break
+				}
+				if err != nil {
+					if ps == 0 {
+						errs++
+					}
+					continue
+				}
+				if ps == 0 {
+					got = append(got, hdrDigest(p))
+				} else {
+					want = append(want, hdrDigest(p))
+				}
+			}
+		}
+		same := len(got) == len(want)
+		for i := 0; same && i < len(got); i++ {
+			same = got[i] == want[i]
+		}
+		if sc.Run.PSize >= 0 { // (under auto-detection such a packet among the first two changes what is detected)
+			rec.ev(M{"ev": "longskip", "npkts": len(withJunk) / 188, "ncb": ncb, "nret": len(got), "nfiltered": len(want), "same": same && errs == 0 && nsel == 2})
+		}
+	}
 	if sc.Run.API == "longskip" {
 		// a very long run of skipped packets (more than 65 536 in a row, on one PID) in front of a few kept ones: counted, not listed
 		rg := newRng(sc.Seed ^ 0x1919)
